@@ -12,6 +12,13 @@ BUILD = os.path.join(VERIF, ".build")
 BBOX_BASE = "/var/tmp/copia-bbox" + ("" if VERIF == "/verif" else "-" + format(__import__("zlib").crc32(VERIF.encode()), "08x"))
 CLI_BIN = os.path.join(BUILD, "cli-target", "debug", "copia")
 HARNESS_BIN = os.path.join(BUILD, "target", "release", "copia-corr")
+HELPER_BIN = os.path.join(BUILD, "helper", "copia-corr")
+
+
+def helper_bin():
+    """the harness binary for HELPER subcommands (hashes, CBOR of requests — nothing of the code under test): the current
+    build, or the copy kept from the last build that succeeded when the tree under test no longer lets the harness compile"""
+    return HARNESS_BIN if os.path.exists(HARNESS_BIN) else HELPER_BIN
 SSHSTUB = os.path.join(VERIF, "tools", "sshstub")
 HOST = "vh"
 
@@ -60,7 +67,7 @@ def blake3_hex(data_list):
     todo = [d for d in set(data_list) if d not in _b3cache]
     if todo:
         inp = "\n".join(d.hex() if d else "-" for d in todo) + "\n"
-        r = subprocess.run([HARNESS_BIN, "hashhex"], input=inp, text=True, stdout=subprocess.PIPE, check=True)
+        r = subprocess.run([helper_bin(), "hashhex"], input=inp, text=True, stdout=subprocess.PIPE, check=True)
         for d, h in zip(todo, r.stdout.split("\n")):
             _b3cache[d] = h.strip()
     return [_b3cache[d] for d in data_list]
